@@ -124,9 +124,35 @@ Definition dec_case (c : sx) : option (database * list op) :=
   | _ => None
   end.
 
+(* Cross-check of the refinement statement itself, on every case: 1 unless the history
+   is inside the guards ([hist_ok_b]) and the reference model disagrees with the
+   implementation model on some return value or some getter after some op. *)
+Global Instance out_eq_dec : EqDecision out.
+Proof. solve_decision. Defined.
+Global Instance answer_eq_dec : EqDecision answer.
+Proof. solve_decision. Defined.
+
+Fixpoint agree_run (j : jstate) (s : rstate) (ops : list op) : bool :=
+  match ops with
+  | [] => true
+  | o :: rest =>
+      let '(j', w) := step_j j o in
+      let '(s', w') := step_r s o in
+      bool_decide (w = w') && forallb (λ q, bool_decide (query_j j' q = query_r s' q)) all_queries
+      && agree_run j' s' rest
+  end.
+
+Fixpoint hist_ok_b (j : jstate) (ops : list op) : bool :=
+  match ops with
+  | [] => true
+  | o :: rest => op_ok j o && hist_ok_b (step_j j o).1 rest
+  end.
+
 Definition C13_run (c : sx) : sx :=
   match dec_case c with
-  | Some (db, ops) => SL (run_dump_j (init_j db) ops)
+  | Some (db, ops) =>
+      SL (run_dump_j (init_j db) ops
+          ++ [sbool (negb (hist_ok_b (init_j db) ops) || agree_run (init_j db) (init_r db) ops)])
   | None => SErr 0
   end.
 
@@ -136,13 +162,6 @@ Definition C13_run_ref (c : sx) : sx :=
   | None => SErr 0
   end.
 
-(* guards of the refinement theorem, evaluated along the implementation-model run:
-   1 = every op of the history satisfied [op_ok] *)
-Fixpoint hist_ok_b (j : jstate) (ops : list op) : bool :=
-  match ops with
-  | [] => true
-  | o :: rest => op_ok j o && hist_ok_b (step_j j o).1 rest
-  end.
 Definition C13_guard (c : sx) : sx :=
   match dec_case c with
   | Some (db, ops) => sbool (hist_ok_b (init_j db) ops)
